@@ -17,6 +17,7 @@ type Env struct {
 	wrap    bool // arithmetic wraps like the machine (contracts of `arith bv` functions used from int mode)
 	nq      *int
 	lookup  func(name string) (Val, bool) // extra resolver (locals)
+	noGhost bool                          // contract of a callee: the caller's ghost variables are not in scope
 }
 
 type specErr struct{ msg string }
@@ -64,6 +65,7 @@ func (x *Exec) loadPure(st *State, a *Addr) Val {
 	terms := make([]string, len(ls))
 	for i, l := range ls {
 		name := a.Prefix + l.suffix
+		x.markRef(name, l)
 		arr := x.heapArr(st, name, x.leafHeapSort(a, l))
 		terms[i] = x.readAt(arr, a, l)
 	}
@@ -71,6 +73,11 @@ func (x *Exec) loadPure(st *State, a *Addr) Val {
 	if x.collectTyping {
 		x.pendingTyping = append(x.pendingTyping, v)
 		x.pendingBound = append(x.pendingBound, x.refBound(st, a.Prefix+ls0suffix(ls)))
+		idx := ""
+		if len(a.Idx) > 0 {
+			idx = a.Idx[0]
+		}
+		x.pendingIdx = append(x.pendingIdx, idx)
 	}
 	return v
 }
@@ -84,12 +91,13 @@ func (x *Exec) assumeCollectedTyping(st *State) {
 				ground = false
 			}
 		}
-		if ground {
-			x.assumeTypingBound(st, v, x.pendingBound[i])
+		if ground && !strings.Contains(x.pendingIdx[i], "!q") {
+			x.assumeTypingBound(st, v, x.pendingBound[i], x.pendingIdx[i])
 		}
 	}
 	x.pendingTyping = nil
 	x.pendingBound = nil
+	x.pendingIdx = nil
 }
 
 func (e *Env) tr(ex Expr) Val {
@@ -150,6 +158,7 @@ func (e *Env) tr(ex Expr) Val {
 				if len(vls) > 0 {
 					x.pendingTyping = append(x.pendingTyping, mv)
 					x.pendingBound = append(x.pendingBound, x.refBound(e.st, prefix+".val"+vls[0].suffix))
+					x.pendingIdx = append(x.pendingIdx, base.S)
 				}
 			}
 			return mv
@@ -478,7 +487,7 @@ func (e *Env) ident(name string) Val {
 	if v, ok := e.vars[name]; ok {
 		return v
 	}
-	if v, ok := e.st.ghost[name]; ok {
+	if v, ok := e.st.ghost[name]; ok && !e.noGhost {
 		return v
 	}
 	if e.lookup != nil {
@@ -753,6 +762,16 @@ func (e *Env) call(n ECall) Val {
 					e.fail("%v", err)
 				}
 				v := e.coerce(e.tr(a), pt)
+				if sl, ok := pt.Underlying().(*types.Slice); ok && v.K == KSlice {
+					if b, ok := sl.Elem().Underlying().(*types.Basic); ok && b.Kind() == types.Uint8 {
+						// a byte-slice argument stands for its contents: (backing array contents, offset, length)
+						hs := "(Array Int (Array " + x.sorts.Idx() + " " + x.byteSort() + "))"
+						arr := x.heapArr(e.st, "mem_uint8", hs)
+						argSorts = append(argSorts, "(Array "+x.sorts.Idx()+" "+x.byteSort()+")", x.sorts.Idx(), x.sorts.Idx())
+						argTerms = append(argTerms, sel(arr, v.Ref), v.Off, v.Len)
+						continue
+					}
+				}
 				for j, l := range x.sorts.leaves(pt) {
 					argSorts = append(argSorts, l.sort)
 					argTerms = append(argTerms, x.flatten(v)[j])
